@@ -26,6 +26,12 @@ class CallMixin:
             selfname = fr.ext.node.args.args[0].arg
             owner = self.owner_class(fr.ext.obj)
             return [(st, SuperProxy(owner, st.locals[selfname]))]
+        if isinstance(node.func, ast.Name) and node.func.id in ("any", "all") and len(node.args) == 1 and not node.keywords \
+                and isinstance(node.args[0], ast.GeneratorExp) and len(node.args[0].generators) == 1 \
+                and node.func.id not in st.locals:
+            r = self.quantified_over_map(node, st)
+            if r is not None:
+                return r
         nodes = [node.func]
         star = []
         for a in node.args:
@@ -65,6 +71,64 @@ class CallMixin:
                     kwargs[name] = v
             out.extend(self.call_value(s, f, args, kwargs, node))
         return out
+
+    def quantified_over_map(self, node, st):
+        """any(<cond> for k, v in d.items()) / all(...) over a SYMBOLIC str->object map: an existential / universal statement
+        over the map's entries.  The generator body is evaluated once for an arbitrary entry (fresh key); it must be free of
+        side effects and exceptions.  Returns None when the iterable is not such a map (ordinary evaluation applies)."""
+        gen = node.args[0]
+        g = gen.generators[0]
+        outs = self.ev(g.iter, st)
+        if len(outs) != 1 or isinstance(outs[0][1], Exc):
+            return None
+        s0, it = outs[0]
+        from .engine import SymView
+        if isinstance(it, SymView):
+            loc, what = it.loc, it.what
+        elif isinstance(it, SLoc):
+            loc, what = it, "keys"
+        else:
+            return None
+        if loc.kind != "map[str,ref]":
+            return None
+        c = s0.heap.get(loc.field, loc.owner)
+        kq = fresh("qkey", z3.StringSort())
+        v = z3.Select(c, kq)
+        elem = {"keys": SStr(kq), "values": SRef(v, self.ref_field_classes(loc.field + "[]")),
+                "items": (SStr(kq), SRef(v, self.ref_field_classes(loc.field + "[]")))}[what]
+        s1 = s0.fork()
+        s1.assume(v != NULL)
+        s1.assume(s1.heap.get("$alive", v))
+        base = len(s1.pc)
+        heap0 = s1.heap
+        disj = []
+        for kind, s2, e in self.assign(g.target, s1, elem):
+            if kind != "ok":
+                raise Unsupported("quantified generator: target assignment fails", node)
+            paths = [(s2, True)]
+            for cnode in list(g.ifs) + [gen.elt]:
+                nxt = []
+                for s3, ok in paths:
+                    if not ok:
+                        nxt.append((s3, False))
+                        continue
+                    for s4, val in self.ev(cnode, s3):
+                        if isinstance(val, Exc):
+                            raise Unsupported("quantified generator: the condition may raise", node)
+                        for s5, b in self.branch(s4, self.truth(s4, val), "quantified-cond"):
+                            nxt.append((s5, b))
+                paths = nxt
+            for s3, ok in paths:
+                if s3.obligations[len(s1.obligations):] or len(s3.calls) != len(s1.calls):
+                    raise Unsupported("quantified generator: the condition has effects", node)
+                if ok:
+                    disj.append(z3.And([z3.BoolVal(True)] + list(s3.pc[base:])))
+        body = z3.Or(disj) if disj else z3.BoolVal(False)
+        if node.func.id == "any":
+            res = z3.Exists([kq], z3.And(v != NULL, body))
+        else:
+            res = z3.ForAll([kq], z3.Implies(v != NULL, body))
+        return [(s0, SBool(res))]
 
     def owner_class(self, fn):
         mod = inspect.getmodule(fn)
